@@ -37,6 +37,8 @@ pub enum Den {
     BuiltinEnum(&'static str),
     /// the built-in type u32
     BuiltinU32,
+    /// another built-in type of the root (primitive or List)
+    BuiltinType,
 }
 
 #[derive(Clone, Debug)]
@@ -74,6 +76,12 @@ pub struct Defect {
     pub detail: String,
 }
 
+/// Types the default runtime declares in the root (next to Option, Result, Verdict)
+pub const BUILTIN_TYPE_NAMES: [&str; 17] = [
+    "bool", "u8", "u16", "u32", "u64", "i8", "i16", "i32", "i64", "f32", "f64", "char", "String",
+    "Asn", "IpAddr", "Prefix", "List",
+];
+
 pub fn valid_ident(s: &str) -> bool {
     const KW: [&str; 24] = [
         "accept", "const", "dep", "else", "enum", "filter", "filtermap", "for", "fn", "if",
@@ -97,6 +105,9 @@ impl State {
         root.decls.insert("Verdict".into(), Den::BuiltinEnum("Verdict"));
         root.decls.insert("Option".into(), Den::BuiltinEnum("Option"));
         root.decls.insert("Result".into(), Den::BuiltinEnum("Result"));
+        for n in BUILTIN_TYPE_NAMES {
+            root.decls.insert(n.to_string(), Den::BuiltinType);
+        }
         root.decls.insert("u32".into(), Den::BuiltinU32);
         for n in ["Some", "None", "Ok", "Err"] {
             root.imports.insert(n.into(), (Den::Variant(n), usize::MAX));
@@ -125,16 +136,22 @@ impl State {
         let mut cur = ScopeKey::Mod(vec![]);
         for (i, seg) in path.iter().enumerate() {
             let sc = self.scopes.get(&cur)?;
-            let den = sc.decls.get(seg)?.clone();
+            let den = match sc.decls.get(seg) {
+                Some(d) => d.clone(),
+                // the first segment is looked up like a name in the root:
+                // a name another `use` brought in counts
+                None if i == 0 => sc.imports.get(seg)?.0.clone(),
+                None => return None,
+            };
             if i + 1 == path.len() {
                 return Some(den);
             }
             cur = match &den {
                 Den::Item(id) => match self.items[id].k {
                     K::Mod => {
-                        let ScopeKey::Mod(p) = &cur else { return None };
+                        let ScopeKey::Mod(p) = &self.items[id].scope else { return None };
                         let mut p = p.clone();
-                        p.push(seg.clone());
+                        p.push(self.items[id].name.clone());
                         ScopeKey::Mod(p)
                     }
                     K::Ty(r) => ScopeKey::Ty(r),
@@ -177,7 +194,7 @@ impl State {
         let mut open = false;
         let mut mentions: Vec<R> = vec![];
         let mut impl_fns: Vec<&CItem> = vec![];
-        let mut uses: Vec<(Vec<String>, &CItem)> = vec![];
+        let mut uses: Vec<(ScopeKey, &CItem)> = vec![];
 
         fn declare(
             st: &mut State,
@@ -205,7 +222,7 @@ impl State {
             defects: &mut Vec<Defect>,
             mentions: &mut Vec<R>,
             impl_fns: &mut Vec<&'a CItem>,
-            uses: &mut Vec<(Vec<String>, &'a CItem)>,
+            uses: &mut Vec<(ScopeKey, &'a CItem)>,
             path: &[String],
             items: &'a [CItem],
         ) {
@@ -245,7 +262,13 @@ impl State {
                         }
                         impl_fns.push(it);
                     }
-                    K::Use => uses.push((path.to_vec(), it)),
+                    K::Use => uses.push((ScopeKey::Mod(path.to_vec()), it)),
+                    K::ImplUse(r) => {
+                        if r != R::U {
+                            mentions.push(r);
+                        }
+                        uses.push((ScopeKey::Ty(r), it));
+                    }
                 }
             }
         }
@@ -269,41 +292,69 @@ impl State {
                 declare(&mut st, &mut defects, &ScopeKey::Ty(r), it);
             }
         }
-        for (loc, it) in uses {
-            if it.path.is_empty() {
-                open = true;
-                continue;
-            }
-            let name = it.path.last().unwrap().clone();
-            let Some(den) = st.resolve(&it.path) else {
-                open = true;
-                st.dangling.push((loc.clone(), name, it.id));
-                continue;
-            };
-            let here = ScopeKey::Mod(loc.clone());
-            let sc = st.scope_mut(&here);
-            if let Some(d) = sc.decls.get(&name) {
-                if *d == den {
-                    // `use f;` in the scope that declares f
+        // uses may depend on each other (`use a::b; use b::f;`): resolve until
+        // nothing changes; what is left names nothing
+        let mut pending = uses;
+        loop {
+            let before = pending.len();
+            let mut rest = vec![];
+            for (here, it) in pending {
+                if it.path.is_empty() {
                     open = true;
-                } else {
+                    continue;
+                }
+                let name = it.path.last().unwrap().clone();
+                let Some(den) = st.resolve(&it.path) else {
+                    rest.push((here, it));
+                    continue;
+                };
+                if matches!(here, ScopeKey::Ty(_)) {
+                    // a use inside an impl block: the documentation allows the
+                    // same items as elsewhere; rejecting it would be in line
+                    // with the other items an impl block refuses, so Ok/Err is
+                    // open — but after Ok the name must be usable there
+                    open = true;
+                    if !st.scopes.contains_key(&here) {
+                        continue; // impl block of an unregistered type: reported above
+                    }
+                }
+                let at_root = here == ScopeKey::Mod(vec![]);
+                let sc = st.scope_mut(&here);
+                if let Some(d) = sc.decls.get(&name) {
+                    if *d == den {
+                        // `use f;` in the scope that declares f
+                        open = true;
+                    } else {
+                        defects.push(Defect {
+                            class: "duplicate-name",
+                            kind: "import-decl",
+                            at_root,
+                            detail: format!("imported name `{name}` is already declared in {here:?}"),
+                        });
+                    }
+                } else if sc.imports.contains_key(&name) {
                     defects.push(Defect {
                         class: "duplicate-name",
-                        kind: "import-decl",
-                        at_root: loc.is_empty(),
-                        detail: format!("imported name `{name}` is already declared in {here:?}"),
+                        kind: "import-import",
+                        at_root,
+                        detail: format!("imported name `{name}` is already imported in {here:?}"),
                     });
+                } else {
+                    sc.imports.insert(name, (den, it.id));
                 }
-            } else if sc.imports.contains_key(&name) {
-                defects.push(Defect {
-                    class: "duplicate-name",
-                    kind: "import-import",
-                    at_root: loc.is_empty(),
-                    detail: format!("imported name `{name}` is already imported in {here:?}"),
-                });
-            } else {
-                sc.imports.insert(name, (den, it.id));
             }
+            pending = rest;
+            if pending.is_empty() || pending.len() == before {
+                break;
+            }
+        }
+        for (here, it) in pending {
+            open = true;
+            let loc = match &here {
+                ScopeKey::Mod(p) => p.clone(),
+                ScopeKey::Ty(_) => vec!["<impl>".to_string()],
+            };
+            st.dangling.push((loc, it.path.last().unwrap().clone(), it.id));
         }
         if defects.is_empty() {
             *self = st;
@@ -357,7 +408,7 @@ impl Pred {
 pub fn predict(lib: &Lib) -> Pred {
     let mut defects = vec![];
     for it in lib.all_items() {
-        if it.k != K::Use && !valid_ident(&it.name) {
+        if !it.k.is_use() && !valid_ident(&it.name) {
             defects.push(Defect {
                 class: "invalid-name",
                 kind: "",
@@ -393,10 +444,10 @@ pub fn predict(lib: &Lib) -> Pred {
 pub fn static_defects(single_add: &Lib) -> usize {
     let mut n = 0;
     for it in single_add.all_items() {
-        if it.k != K::Use && !valid_ident(&it.name) {
+        if !it.k.is_use() && !valid_ident(&it.name) {
             n += 1;
         }
-        if it.k == K::Use
+        if it.k.is_use()
             && matches!(it.target, Some(crate::space::Target::Empty | crate::space::Target::Missing))
         {
             n += 1;
